@@ -7,7 +7,8 @@
     with float_roundtrip, /repo 41a5003).
     Every function takes [cur : bool]: [true] is the code now; [false] is the representation
     before /repo c00f690 (complex parts as bare f64), 6da1960 (a character list spelled like a
-    named number written as a bare string) and 1df8995 (every other NaN written as "NaN").
+    named number written as a bare string), 1df8995 (every other NaN written as "NaN") and
+    71ff4d9 (unknown metadata fields ignored).
     Labels and map keys are modelled at the top level of a value only. *)
 From Coq Require Import List NArith Bool.
 From UV Require Import Base.Value Model.Uasm.
@@ -181,12 +182,14 @@ Section Read.
     | 3%nat => match j with JStr [c] => Some (VChar [] [c]) | _ => None end
     | _ => option_map (fun x => VBox [] [x]) (p_boxed j)
     end.
-  (** ArrayMeta = Option<Arc<ArrayMetaInner>>; unknown fields of the struct are ignored,
-      flags / map_keys fields are outside the model *)
+  (** ArrayMeta = Option<Arc<ArrayMetaInner>>.  Now (#[serde(deny_unknown_fields)], /repo 71ff4d9) an
+      object with a field other than label / flags / map_keys is refused; before, unknown fields
+      were ignored.  flags / map_keys fields are outside the model (read as "unsupported"). *)
   Definition p_meta (j : json) : option (option text) :=
     match j with
     | JNull => Some None
-    | JObj l => match assoc K_LABEL l with
+    | JObj l => if cur && negb (forallb (fun kv => text_eqb (fst kv) K_LABEL) l) then None else
+                match assoc K_LABEL l with
                 | Some (JStr s) => Some (Some s)
                 | Some JNull => Some None
                 | Some _ => None
@@ -284,3 +287,32 @@ Definition vcase_ok (cur : bool) (c : option mval * json * option mval) : bool :
 
 Fixpoint failing_from {A} (ok : A -> bool) (i : N) (l : list A) : list N :=
   match l with [] => [] | x :: t => (if ok x then [] else [i]) ++ failing_from ok (i + 1) t end.
+
+(** ---- the sortedness marks of a value that is read (impl From<ArrayRep<T>> for Array<T>,
+    "Update sortedness flags").  The writer strips all flags; the reader walks the rows once,
+    comparing each row with the next (ArrayCmpSlice), and stops early when both directions are
+    ruled out.  The loop only sees the comparison of adjacent rows, so it is modelled on that list:
+      for row in rows { if !up && !down { break }
+                        match cmp(curr, row) { Equal => {}, Less => down = false, Greater => up = false } } *)
+Fixpoint scan_marks (up down : bool) (cs : list comparison) : bool * bool :=
+  match cs with
+  | [] => (up, down)
+  | c :: t => if negb up && negb down then (up, down)
+              else match c with
+                   | Eq => scan_marks up down t
+                   | Lt => scan_marks up false t
+                   | Gt => scan_marks false down t
+                   end
+  end.
+Definition recompute_marks (cs : list comparison) : bool * bool := scan_marks true true cs.
+
+(** the truthful marks: sorted up = no adjacent pair is descending, sorted down = none ascending *)
+Definition truthful_marks (cs : list comparison) : bool * bool :=
+  (forallb (fun c => match c with Gt => false | _ => true end) cs,
+   forallb (fun c => match c with Lt => false | _ => true end) cs).
+
+(** tie case: adjacent row comparisons (0 Lt, 1 Eq, 2 Gt) and the two marks of the re-read value *)
+Definition cmp_of_N (n : N) : comparison := if n =? 0 then Lt else if n =? 1 then Eq else Gt.
+Definition marks_case_ok (c : list N * (bool * bool)) : bool :=
+  let '(ns, (u, d)) := c in
+  let '(u', d') := recompute_marks (map cmp_of_N ns) in Bool.eqb u u' && Bool.eqb d d'.
